@@ -23,7 +23,10 @@ Inductive case :=
 | CBlkSplit1 (sp : brule_spec) (b : nat) (hist : list (list Z)) (T1 T2 : nat)
              (obs_split obs_whole : res (list (list Z)))
 | CBlkSplit2 (sp : brule2_spec) (b1 b2 : nat) (hist : list grid2) (T1 T2 : nat)
-             (obs_split obs_whole : res (list grid2)).
+             (obs_split obs_whole : res (list grid2))
+(* checked on the implementation only (rule objects of the library that have no model here, e.g. a
+   ReversibleRule built from a view of the caller's array): nothing is compared in Coq *)
+| CSkip5.
 
 Definition drop_state {S A} (x : res (S * A)) : res A := bind x (fun p => Ok (snd p)).
 
@@ -59,6 +62,7 @@ Definition model_out (c : case) : res (list grid) * res (list grid) :=
       (rows_as_grids (drop_state (m_bsplit1 sp b hist T1 T2)), rows_as_grids (drop_state (m_blk1 sp b hist (T1 + T2 - 1))))
   | CBlkSplit2 sp b1 b2 hist T1 T2 _ _ =>
       (drop_state (m_bsplit2 sp b1 b2 hist T1 T2), drop_state (m_blk2 sp b1 b2 hist (T1 + T2 - 1)))
+  | CSkip5 => (Ok [], Ok [])
   end.
 
 Definition hist1_eqb := list_eqb zlist_eqb.
@@ -88,4 +92,5 @@ Definition check_case (c : case) : bool :=
   | CBlkSplit2 sp b1 b2 hist T1 T2 os ow =>
       res_eqb_anyexc hist2_eqb (drop_state (m_bsplit2 sp b1 b2 hist T1 T2)) os
       && res_eqb_anyexc hist2_eqb (drop_state (m_blk2 sp b1 b2 hist (T1 + T2 - 1))) ow
+  | CSkip5 => true
   end.
